@@ -1006,6 +1006,15 @@ impl<'a> JoinOutput<'a> {
                         .inner_exprs()
                         .and_then(|exprs| exprs.first())
                         .map_or(false, |expr| {
+                            //
+                            // A value substituted by `macro_rules!` (`$value:expr`) arrives inside of a group with invisible
+                            // delimiters, which doesn't keep its precedence once it's emitted again, so look through it.
+                            //
+                            let mut expr = expr;
+                            while let Expr::Group(group) = expr {
+                                expr = &*group.expr;
+                            }
+
                             matches!(
                                 expr,
                                 Expr::Binary(_)
